@@ -2,10 +2,25 @@ _COMMON = [
     'only executions produced by this run are judged (runtime monitoring, not proof)',
     'gcc 12 / x86-64 LP64 little-endian, A_SIZE_POINTER=8 (packed parent/balance word); library rebuilt from /repo working tree with -fsanitize=address,undefined',
 ]
+import os as _os, re as _re
+
+
+def _minalign(hdr):
+    """the node alignment the header documents as sufficient for the packed parent word, or None"""
+    try:
+        t = open(_os.path.join(_os.environ.get('VF_REPO', '/repo'), 'include', 'a', hdr)).read()
+    except OSError:
+        return []
+    m = _re.search(r'must be (\d+)-byte aligned', t)
+    return [int(m.group(1))] if m and int(m.group(1)) in (2, 4, 8) else []
+
+
 SPEC = dict(
     harness=['h_tree.c'],
-    configs=lambda tier: [dict(name='packed'), dict(name='unpacked', cflags=['-DA_SIZE_POINTER=1'])],
-    parallel_configs=2,
+    configs=lambda tier: [dict(name='packed'), dict(name='unpacked', cflags=['-DA_SIZE_POINTER=1']), dict(name='clang', libcc='clang'),
+                          dict(name='unpacked-uchar', cflags=['-DA_SIZE_POINTER=1', '-funsigned-char'])] +
+                         [dict(name='minalign', cflags=['-fno-sanitize=alignment'], hflags=['-DVF_MINALIGN=%d' % n]) for n in _minalign('avl.h')],
+    parallel_configs=5,
     workers={'quick': 12, 'thorough': 16},
     level='exploration',
     rule='(1) every AVL shape reachable through the real library with <= N nodes (N=15 quick, 20 thorough) is enumerated by a fixpoint over '
